@@ -103,6 +103,29 @@ def scan_forbidden():
     return problems
 
 
+FINGERPRINT = os.path.join(ROOT, "repo_fingerprint.json")
+
+
+def source_hashes():
+    out = {}
+    src = "/repo/src"
+    for d, _, files in os.walk(src):
+        for fn in files:
+            if fn.endswith(".rs"):
+                p = os.path.join(d, fn)
+                out[os.path.relpath(p, "/repo")] = hashlib.sha256(open(p, "rb").read()).hexdigest()
+    return out
+
+
+def changed_sources():
+    """files under /repo/src that differ from the committed fingerprint of the tree the model was validated against"""
+    if not os.path.exists(FINGERPRINT):
+        return []
+    want = json.load(open(FINGERPRINT))["files"]
+    have = source_hashes()
+    return sorted(f for f in set(want) | set(have) if want.get(f) != have.get(f))
+
+
 def theorems_of(prop):
     src = strip_comments(open(os.path.join(COQ, "props", prop + ".v")).read())
     return re.findall(r"^\s*Theorem\s+(\w+)", src, re.M)
